@@ -8,6 +8,19 @@ VERIF = os.path.dirname(os.path.dirname(os.path.abspath(__file__)))
 ALL = ["C%02d" % i for i in range(1, 21)]
 
 CHECKS = {
+    "C01": dict(
+        text="Coq theorems (no axioms) over an interleaving small-step model of registry.go and fAdapterTransport.Request (callers, their send "
+             "goroutines, the clock and the single reader, cut where they touch shared state), for ALL accepted event sequences - any number "
+             "of callers, any interleaving, any arrival sequence (permutations, duplicates, late frames, op ids never issued): a request "
+             "completes successfully only with a frame carrying its own op id; frames for unregistered op ids leave the state unchanged; frames "
+             "for requests that already left their select change nobody's outcome (bisimulation); a request completes at most once; when all "
+             "returned the registry is empty; with distinct op ids, registered iff in flight. Tie: a scheduling harness parks the real goroutines "
+             "at verif yield points and at a scripted transport, walks randomly over the events the IMPLEMENTATION offers, and every logged "
+             "event with its observed effect is replayed on the model inside Coq; plus a direct oracle.",
+        note="Trusted: Coq kernel + vm_compute; harness/controller as test equipment; sync.RWMutex and Go channel semantics assumed; distinct op ids from C17. "
+             "The NATS transport shares registry and Request structure; its inbox path is exercised by C05/C12/C13, the schedules here run on the adapter transport.",
+        technique="Coq interleaving model + invariant and bisimulation proofs + controlled-schedule trace validation (yield hooks) + direct oracle",
+        design="5/C01"),
     "C02": dict(
         text="Coq theorems over every environment, type and value: round trip of the TBinary encoding directed by the declared type; exact "
              "skipping of unknown fields; the field rules of the generated Write (required and default always, optional iff set, a union "
@@ -55,6 +68,17 @@ CHECKS = {
         note="Trusted: Coq kernel + vm_compute; harness as test equipment; Apache Thrift readers assumed graceful (exercised only); messages < 2^31 bytes.",
         technique="Coq totality proofs over a Go-partiality model + vm_compute trace-validation judge on all receiving entry points",
         design="5/C05"),
+    "C06": dict(
+        text="Coq theorems (no axioms) over the same interleaving model as C01: in EVERY state the single reader has an enabled step (hand over "
+             "or drop the frame it looked up, or accept the next frame) with no premise about any caller, so slow, timed-out or abandoned "
+             "requests and any number of duplicates cannot stall it; the response of an in-flight request with an empty channel is delivered "
+             "and taken regardless of all other requests; a frame is dropped only when its target already holds a frame with the same op id. The "
+             "pinned tree's blocking dispatch is refuted: a reachable state from which, along every continuation, no frame is ever looked up or "
+             "delivered again. Tie: as C01, with adversarial schedules (several frames for one op id while its caller is held between result and "
+             "unregister); a reader that does not return from the channel send within 1 s, or a fresh request not served within 1 s, is a violation.",
+        note="Trusted: as C01. 'Promptly' is enabledness in the theorems; latency is bounded empirically (1 s) by the harness.",
+        technique="Coq interleaving model, enabledness theorems, refutation witness for the pinned dispatch, controlled-schedule trace validation",
+        design="5/C06"),
     "C07": dict(
         text="12 Coq theorems (no axioms) over interleaving models of the NATS and STOMP subscriber transports, the generated recv<Op> callback and "
              "the publisher frame, for all publish sequences, schedules and worker counts: exact order for one worker; exactly-once multiset for n "
@@ -129,6 +153,18 @@ CHECKS = {
              "writes taken from a recording transport; Thrift decoding, brokers, net/http, nats.go, go-stomp not modelled; NATS max_payload >= 1 MiB assumed.",
         technique="Coq model + induction over write sequences; trace-validation judge; boundary-directed generation through real transports",
         design="5/C12"),
+    "C13": dict(
+        text="Partial proof. Coq theorems (no axioms) over the C01 model and the FContext timeout arithmetic: a caller waiting in its select with "
+             "a deadline can ALWAYS take the timeout branch, whatever the send goroutine (blocked write or flush), the reader and other callers "
+             "do, and that step touches nothing else; the reported outcome is TIMED_OUT exactly when that branch was taken; a finished request "
+             "leaves no registration behind; every positive timeout is stored as at least one millisecond, hence has a deadline. Wall-clock "
+             "punctuality is MEASURED, not proved: Request/Oneway on the adapter, NATS and HTTP transports against silent / late / "
+             "write-blocked / flush-blocked peers must return within timeout + 150 ms with TIMED_OUT and an empty registry. Logic tied to the "
+             "code by the same controlled-schedule trace validation as C01 (short timeouts, send failures).",
+        note="Trusted: Coq kernel + vm_compute; Go timers, scheduler, net/http and nats.go honouring contexts are measured only; NATS PublishRequest is synchronous "
+             "(a publish blocked by a full reconnect buffer is outside the model).",
+        technique="Coq interleaving model + enabledness/classification theorems + controlled schedules + wall-clock measurement on three transports",
+        design="5/C13"),
     "C14": dict(
         text="10 Coq theorems (no axioms): for every service table, handler, error text and request frame whose headers/envelope decode, the modelled "
              "generated processor writes exactly one reply frame (or none for a successful oneway) that an independent reader classifies as "
